@@ -13,7 +13,7 @@ from vf.worker import R
 PROPERTY = "C16"
 LEVEL = "exploration"
 RULE = ("case = one RunEngine execution of a seeded plan interleaving configure(obj) with bundles on two bundle streams "
-        "(overlapping object sets), updates of a monitored configurable signal, and a pause/resume; every fake's "
+        "(overlapping object sets), bundles that are read and then dropped, updates of a monitored configurable signal, and a pause/resume; every fake's "
         "configuration is a counter incremented by configure; oracle: each descriptor's configuration[obj].data equals the "
         "counter at the moment the descriptor was emitted; after configure(obj) the next event of every stream containing "
         "obj references a descriptor emitted after that configure, with the new configuration and unchanged data_keys; "
@@ -74,8 +74,10 @@ def run_case(case):
         steps = []
         for _ in range(rng.randint(6, 22)):
             r = rng.random()
-            if r < 0.45:
+            if r < 0.37:
                 steps.append(("bundle", rng.choice(list(STREAMS))))
+            elif r < 0.45:
+                steps.append(("dropped", rng.choice(list(STREAMS))))  # objects are read, the bundle is dropped
             elif r < 0.7:
                 steps.append(("configure", rng.choice(["a", "b", "c", "sig"])))
             elif r < 0.9:
@@ -96,6 +98,11 @@ def run_case(case):
                     for o in STREAMS[arg]:
                         yield Msg("read", devs[o])
                     yield Msg("save")
+                elif op == "dropped":
+                    yield Msg("create", name=arg)
+                    for o in STREAMS[arg]:
+                        yield Msg("read", devs[o])
+                    yield Msg("drop")
                 elif op == "configure":
                     yield Msg("configure", devs[arg])
                 elif op == "put":
